@@ -31,6 +31,8 @@ for c in cases:
     r['sum'], r['mean'], r['min'], r['max'], r['prod'] = f(s.sum()), f(s.mean()), f(s.min()), f(s.max()), f(s.prod())
     r['std1'], r['std0'] = f(s.std(ddof=1)), f(s.std(ddof=0))
     r['len'] = len(s)
+    r['fill.sum'], r['count'] = f(s.fillna(0.25).sum()), int(s.count())
+    r['fill'] = [f(x) for x in s.fillna(0)]
     r['m.len'], r['m.sum'], r['m.mean'], r['m.min'], r['m.max'], r['m.std1'] = len(m), f(m.sum()), f(m.mean()), f(m.min()), f(m.max()), f(m.std(ddof=1))
     r['cumprod'] = [f(x) for x in (1 + s).cumprod()]
     r['exp0'] = [f(x) for x in s.expanding(min_periods=0).max()]
@@ -79,6 +81,8 @@ def model_side(cases):
         r['sum'], r['mean'], r['min'], r['max'], r['prod'] = num(s.sum()), num(s.mean()), num(s.min()), num(s.max()), num(s.prod())
         r['std1'], r['std0'] = num(s.std(1)), num(s.std(0))
         r['len'] = s.pv_len(I)
+        r['fill.sum'], r['count'] = num(s.fillna(Fraction(1, 4)).sum()), s.count()
+        r['fill'] = [num(x) for x in s.fillna(0).v]
         r['m.len'], r['m.sum'], r['m.mean'], r['m.min'], r['m.max'], r['m.std1'] = m.pv_len(I), num(m.sum()), num(m.mean()), num(m.min()), num(m.max()), num(m.std(1))
         one = s.pv_binop(I, '+', 1, True)
         cp = one.cumprod()
